@@ -10,7 +10,7 @@ import types
 import z3
 from .values import (Unsupported, Obj, EnumSym, SBytes, Guarded, Opaque, SList, SDict, UNDEF, Undefined,
                      BoundSym, TimerRec)
-from .interp import Interp, Closure, Frame, TRUE, FALSE
+from .interp import Interp, Closure, Frame, TRUE, FALSE, UndefinedUse
 
 _LOCK_TYPES = (type(threading.Lock()), type(threading.RLock()), threading.Event, threading.Condition)
 
@@ -34,7 +34,7 @@ class Engine(Interp):
         if e.id in fr.env:
             v = fr.env[e.id]
             if isinstance(v, Undefined):
-                raise Unsupported(f"read of undefined local {e.id}")
+                raise UndefinedUse(f"read of undefined local {e.id}")
             return v
         if e.id in fr.glb:
             return fr.glb[e.id]
@@ -162,6 +162,10 @@ class Engine(Interp):
 
     # ------------------------------------------------------------------ comparison
     def compare(self, op, a, b, pc=TRUE):
+        if isinstance(a, Undefined):
+            raise UndefinedUse('use of an undefined value')
+        if isinstance(b, Undefined):
+            raise UndefinedUse('use of an undefined value')
         if isinstance(a, Guarded):
             return self._boolify(self.dist(a, lambda v: self._lb(self.compare(op, v, b, pc))))
         if isinstance(b, Guarded):
@@ -235,6 +239,10 @@ class Engine(Interp):
 
     def equal(self, a, b, pc=TRUE):
         """python == ; returns bool or z3 Bool"""
+        if isinstance(a, Undefined):
+            raise UndefinedUse('use of an undefined value')
+        if isinstance(b, Undefined):
+            raise UndefinedUse('use of an undefined value')
         if isinstance(a, Guarded):
             return self._boolify(self.dist(a, lambda v: self._lb(self.equal(v, b, pc))))
         if isinstance(b, Guarded):
@@ -303,6 +311,8 @@ class Engine(Interp):
 
     # ------------------------------------------------------------------ attribute access
     def getattr(self, obj, attr, pc):
+        if isinstance(obj, Undefined):
+            raise UndefinedUse('use of an undefined value')
         if isinstance(obj, Guarded):
             alts = []
             for c, v in obj.alts:
@@ -418,6 +428,10 @@ class Engine(Interp):
         return z3.BV2Int(b)
 
     def container_get(self, obj, idx, pc):
+        if isinstance(obj, Undefined):
+            raise UndefinedUse('use of an undefined value')
+        if isinstance(idx, Undefined):
+            raise UndefinedUse('use of an undefined value')
         if isinstance(obj, Guarded):
             return self.dist(obj, lambda v: self.container_get(v, idx, pc))
         if isinstance(idx, Guarded):
@@ -615,6 +629,10 @@ class Engine(Interp):
         raise Unsupported("del on this container")
 
     def contains(self, container, item, pc=TRUE):
+        if isinstance(container, Undefined):
+            raise UndefinedUse('use of an undefined value')
+        if isinstance(item, Undefined):
+            raise UndefinedUse('use of an undefined value')
         if isinstance(container, Guarded):
             return self._boolify(self.dist(container, lambda v: self._lb(self.contains(v, item, pc))))
         if isinstance(container, SDict):
@@ -643,6 +661,8 @@ class Engine(Interp):
 
     def iterate(self, it, pc):
         """-> list of (cond, item)"""
+        if isinstance(it, Undefined):
+            raise UndefinedUse('use of an undefined value')
         if isinstance(it, Guarded):
             out = []
             for c, v in it.alts:
